@@ -125,6 +125,66 @@ PROPS["C09"] = {
                          "byte-level instantiation of C09_mkproof_sound for variable-length leaves is FALSE (known findings C09-node-as-leaf, C09-concat-split)"],
 }
 
+PROPS["C01"] = {
+    "lean_modules": ["MithrilModel.Properties.C01"],
+    "theorems": [
+        "C01.C01_structural", "C01.C01_index_lt_m", "C01.C01_index_eq_m_counterexample_prefix", "C01.C01_batch",
+        "C01.C01_batch_member_alone", "StmVerify.verifyM_structural", "StmVerify.batchVerify_members",
+        "StmVerify.verifyM_of_preliminary", "C09.C09_stm_sound", "C08.C08_true_correct",
+    ],
+    "level_text": "The decision logic of aggregate and batch verification is a Lean model whose acceptance is proved to imply: >= k "
+                  "indices, pairwise distinct, each in [0, m) and won for the claimed stake, batch path verified, aggregate BLS check "
+                  "passed; batch acceptance implies each member's preliminary verification. Membership of the claimed (key, stake) pairs "
+                  "follows from the C09 batch-path theorem, lottery exactness from C08. The model is compared verdict-and-error-class with "
+                  "the real verifier on honest aggregates and ~35 kinds of structural mutation applied through the JSON form (index values "
+                  "at the m boundary, copied/repeated indices, k-1 indices, swapped or forged parties and stakes, foreign sigmas, batch path "
+                  "edits) and on batches with one bad member at each position; the six clauses are evaluated on every accepted case.",
+    "level_note": "Oracle inputs of the model come from the real primitives (eligibility.rs compiled into the harness, batch-path wrapper, "
+                  "BLS validity through the public single verifier). That each individual signature is valid follows from the aggregate "
+                  "check only under the random-oracle assumption on the Blake2b-derived coefficients (trusted base); S checks it directly. "
+                  "blst is trusted.",
+    "harness": [("harness", "c01")],
+    "anchors": ["mithril-stm/src/proof_system/concatenation/proof.rs", "mithril-stm/src/proof_system/concatenation/single_signature.rs",
+                "mithril-stm/src/proof_system/concatenation/eligibility.rs", "mithril-stm/src/membership_commitment/merkle_tree/commitment.rs",
+                "mithril-stm/src/signature_scheme/bls_multi_signature/signature.rs", "mithril-stm/src/protocol/aggregate_signature/signature.rs"],
+    "rule": "world = registration of 1-8 real parties (equal stakes / one whale / random), m in 4..24, phi_f in {0.2,0.65,1}, k up to the "
+            "covered indices; case = honest aggregate or one structural mutation of it (JSON re-encoding), or a batch of 1-3 (4 thorough) "
+            "members with one bad member at each position; all cases non-trivial; distinct request lines",
+    "trivial_tags": [],
+    "trusted_base": ["rustc/cargo; harness bin c01; blst; serde_json", "random-oracle assumption for clause (6) (individual validity from the aggregate check)"],
+    "assumptions": ["num-integer backend; default features (future_snark off)"],
+    "goals_not_proved": ["C01_signatures (agg_bad_coeff_unique): algebraic lemma about random coefficients not formalised; clause (6) is checked by S on every accepted case",
+                         "CBOR / legacy byte re-encodings of aggregates are exercised under C05, not here"],
+}
+
+PROPS["C02"] = {
+    "lean_modules": ["MithrilModel.Properties.C02"],
+    "theorems": [
+        "C02.C02_select_sound", "C02.C02_complete_nodup", "C02.C02_monotone_partial", "C02.C02_invalid_ignored",
+        "C02.C02_duplicate_counterexample", "Clerk.select_sound", "Clerk.select_complete", "Clerk.select_monotone_partial",
+    ],
+    "level_text": "Soundness of the selection, completeness for every order of the input and monotonicity under any interleaving of extra "
+                  "material are Lean theorems about a transliteration of select_valid_signatures_for_k_indices, under the hypothesis that no "
+                  "(key, index) pair is offered twice; the failure without that hypothesis is a proved counter-example and a listed known "
+                  "finding. The model is compared (selected (signer, indices) lists or the reported count) with the real Clerk on "
+                  "permutations, duplications, index-subset copies, corrupted and other-message signatures, k swept around the covered "
+                  "count; completeness, monotonicity, 'result verifies' and 'honest single signatures verify' are evaluated on the real code.",
+    "level_note": "The validity bit of each signature is the real SingleSignature::verify verdict; sigma enters as the rank of its bytes. "
+                  "C02_aggregate_verifies (the selected set passes the C01 verifier) is checked by S only. An unregistered signer_index makes "
+                  "the wrapper fail before the selection (known finding).",
+    "harness": [("harness", "c02")],
+    "anchors": ["mithril-stm/src/proof_system/concatenation/clerk.rs", "mithril-stm/src/proof_system/concatenation/proof.rs",
+                "mithril-stm/src/proof_system/concatenation/signer.rs", "mithril-common/src/protocol/multi_signer.rs"],
+    "rule": "world = real registration (1-8 parties), m in 3..24, phi_f in {0.05,0.2,0.65,1}; case = a (base list, k) and an extension of "
+            "it by repeated copies / invalid material / same-sigma index-subset copies / more honest signatures at random positions; all "
+            "non-trivial; distinct request lines",
+    "trivial_tags": [],
+    "trusted_base": ["rustc/cargo; harness bin c02; blst"],
+    "assumptions": [],
+    "goals_not_proved": ["C02_monotone_goal is FALSE on the current tree (C02_duplicate_counterexample): known finding C02-duplicate",
+                         "C02_aggregate_verifies: S only"],
+}
+
 
 # property configurations contributed as separate files: props.d/Cxx.py defines `CONFIG = {...}`
 import glob as _glob, os as _os, importlib.util as _ilu
